@@ -24,6 +24,7 @@ type result struct {
 	Label  string         `json:"label"`
 	Stats  map[string]int `json:"stats"`
 	Stream string         `json:"stream"`
+	Sub    int            `json:"sub"` // position among the cases of one plan item (fault stream)
 }
 
 type item struct {
@@ -45,6 +46,10 @@ func plan(n int) []item {
 	}
 	for i := 0; i < n/4; i++ {
 		p = append(p, item{"sig", i})
+	}
+	// fault stream: one item = one cluster under every Bind-failure oracle (several cases)
+	for i := 0; i < n/12; i++ {
+		p = append(p, item{"fault", i})
 	}
 	return p
 }
@@ -158,7 +163,7 @@ func corpus() []corpusCase {
 	twoDepts := map[string]string{"qa": "d1", "qb": "d2"}
 	ap := []string{"allocate", "preempt"}
 	full := []string{"allocate", "consolidation", "reclaim", "preempt"}
-	return []corpusCase{
+	return append([]corpusCase{
 		{"het-binpack", alloc(het, Config{NodeOrder: "binpack"}, true, "corpus=binpack-het-default-order ")},
 		{"het-spread", alloc(het, Config{NodeOrder: "spread"}, true, "witness=binpack-het ")},
 		{"het42-perm", alloc(het42, Config{NodeOrder: "perm", Perm: map[string]int{"n1": 1, "n2": 0}}, true, "witness=binpack-het ")},
@@ -183,7 +188,18 @@ func corpus() []corpusCase {
 		{"empty", alloc(empty, Config{NodeOrder: "binpack"}, false, "corpus=empty ")},
 		{"limited", alloc(limited, Config{NodeOrder: "binpack"}, false, "corpus=limit ")},
 		{"limited-spread", alloc(limited, Config{NodeOrder: "spread", Sigs: true}, false, "corpus=limit ")},
+	}, faultCorpus()...)
+}
+
+// runItems: the cases of one plan item (one, except for the fault stream).
+func runItems(root *u.Rng, it item) []result {
+	if it.stream != "fault" {
+		return []result{runItem(root, it)}
 	}
+	r := root.Fork(uint64(4000000 + it.i))
+	c := genFaultCluster(r)
+	cfg := genConfig(r, c)
+	return faultFamily(c, cfg, "", 8, 4)
 }
 
 func runItem(root *u.Rng, it item) result {
@@ -251,11 +267,12 @@ func Worker(dir string, seed uint64, n int, spec string) error {
 		if idx%w != k {
 			continue
 		}
-		res := runItem(root, it)
-		res.Idx = idx
-		data, _ := json.Marshal(res)
-		bw.Write(data)
-		bw.WriteByte('\n')
+		for sub, res := range runItems(root, it) {
+			res.Idx, res.Sub = idx, sub
+			data, _ := json.Marshal(res)
+			bw.Write(data)
+			bw.WriteByte('\n')
+		}
 	}
 	return nil
 }
@@ -306,9 +323,18 @@ func Run(dir string, seed uint64, n int, tier string) error {
 		f.Close()
 		os.Remove(p)
 	}
-	sort.Slice(all, func(i, j int) bool { return all[i].Idx < all[j].Idx })
-	if len(all) != len(plan(n)) {
-		return fmt.Errorf("workers returned %d cases, expected %d", len(all), len(plan(n)))
+	sort.Slice(all, func(i, j int) bool {
+		if all[i].Idx != all[j].Idx {
+			return all[i].Idx < all[j].Idx
+		}
+		return all[i].Sub < all[j].Sub
+	})
+	items := map[int]bool{}
+	for _, r := range all {
+		items[r.Idx] = true
+	}
+	if len(items) != len(plan(n)) {
+		return fmt.Errorf("workers returned cases of %d plan items, expected %d", len(items), len(plan(n)))
 	}
 	out := u.NewOut(dir, "C05", "KaiV.Run.C05", "c05case", 25)
 	out.Flags = true
